@@ -196,6 +196,8 @@ type vc36World struct {
 	held      []vc36Held
 	truncated map[vc36PC]bool // a push for this (peer,cid) happened while pending+pushed > limit
 	staleFull map[vc36PC]bool // the entry was dropped by a full wantlist (protocol) and not re-wanted since
+	staleTask map[vc36PC]bool // a task was queued for the CID when a full wantlist dropped it (until the next quiescent point)
+	orphanAdd map[vc36PC]bool // when the block was announced, a task was queued for the CID although the ledger had no entry (NotifyNewBlocks cannot upgrade it)
 	orphan    map[vc36PC]bool // when a cancel arrived, the ledger had no entry for the CID although a task was queued
 	shape     map[peer.ID][]string
 
@@ -279,7 +281,7 @@ func vc36NewWorld(k *vlib.Case, cfg vc36Cfg, seq bool) *vc36World {
 		byCid: map[cid.Cid]*vc36Cid{}, deny: map[vc36PC]bool{}, workers: cfg.workers, seq: seq,
 		storeTL: map[string]*vc36TL{}, storeNow: map[string]bool{}, addOps: map[string][]*vc36Ev{},
 		wantTL: map[vc36PC]*vc36TL{}, wantOps: map[vc36PC][]vc36WantOp{},
-		model: map[peer.ID]map[cid.Cid]vc36ME{}, truncated: map[vc36PC]bool{}, staleFull: map[vc36PC]bool{}, orphan: map[vc36PC]bool{}, shape: map[peer.ID][]string{}}
+		model: map[peer.ID]map[cid.Cid]vc36ME{}, truncated: map[vc36PC]bool{}, staleFull: map[vc36PC]bool{}, orphan: map[vc36PC]bool{}, orphanAdd: map[vc36PC]bool{}, staleTask: map[vc36PC]bool{}, shape: map[peer.ID][]string{}}
 	for i := 0; i < cfg.nPeers; i++ {
 		p := peer.ID(fmt.Sprintf("peer-%c", 'A'+i))
 		w.peers = append(w.peers, p)
@@ -683,7 +685,7 @@ func (w *vc36World) process(env *Envelope, a int64) {
 			w.nDontHaves++
 			newResps = append(newResps, vc36Resp{p: p, c: c, kind: 'D'})
 			if !w.wtl(p, c).possibly(true, a, b) {
-				k.Fail("donthave-unwanted"+w.unwantedFeature(p, c, a), "DONT_HAVE only when the peer asked for the CID", fmt.Sprintf("%s wanted by %s at some instant of %s", u.name, pn(p), win), "want time-line "+w.wtl(p, c).String())
+				k.Fail("donthave-unwanted"+w.unwantedFeatureK(p, c, a, false), "DONT_HAVE only when the peer asked for the CID", fmt.Sprintf("%s wanted by %s at some instant of %s", u.name, pn(p), win), "want time-line "+w.wtl(p, c).String())
 			}
 			anySDH := false
 			for _, op := range w.wantOps[vc36PC{p, c}] {
@@ -751,6 +753,10 @@ func (w *vc36World) process(env *Envelope, a int64) {
 // unwantedFeature says why the CID was not wanted (last definite event before
 // the window), so that the classes stay narrow.
 func (w *vc36World) unwantedFeature(p peer.ID, c cid.Cid, a int64) string {
+	return w.unwantedFeatureK(p, c, a, true)
+}
+
+func (w *vc36World) unwantedFeatureK(p peer.ID, c cid.Cid, a int64, notifyCanCause bool) string {
 	var last *vc36Ev
 	for _, e := range w.wtl(p, c).evs {
 		if e.end < a && !e.val && (last == nil || e.start > last.start) {
@@ -761,21 +767,20 @@ func (w *vc36World) unwantedFeature(p peer.ID, c cid.Cid, a int64) string {
 		return "/never-wanted"
 	}
 	f := "/" + last.kind
+	if u := w.byCid[c]; u != nil && notifyCanCause {
+		for _, ad := range w.addOps[u.mhKey] {
+			if ad.start < last.end && ad.end > last.start {
+				// NotifyNewBlocks was running while the want went away
+				return f + "/notify-in-flight"
+			}
+		}
+	}
 	if w.deny[vc36PC{p, c}] || w.orphan[vc36PC{p, c}] {
 		// Input feature: the cancel / full wantlist met a queued task whose want
 		// has no ledger entry (denied CID: DONT_HAVE task only; want evicted by
 		// the overflow of its own message; entry already removed by a sent HAVE
 		// while an upgraded block task was still queued).
 		f += "/task-without-ledger-entry"
-	}
-	if u := w.byCid[c]; u != nil {
-		for _, ad := range w.addOps[u.mhKey] {
-			if ad.start < last.end && ad.end > last.start {
-				// NotifyNewBlocks was running while the want went away
-				f += "/notify-in-flight"
-				break
-			}
-		}
 	}
 	return f
 }
@@ -805,17 +810,19 @@ func (w *vc36World) dontHaveLegit(p peer.ID, u *vc36Cid, a, b int64) bool {
 // pcFeature names the trigger features the monitor has observed for this
 // (peer, CID); they make the classes of the recorded findings narrow.
 func (w *vc36World) pcFeature(p peer.ID, u *vc36Cid) string {
-	f := ""
-	if len(u.data) == 0 {
-		f += "/empty-block"
+	key := vc36PC{p, u.c}
+	// one feature per class, by precedence, so that classes do not multiply
+	switch {
+	case len(u.data) == 0:
+		return "/empty-block"
+	case w.staleFull[key] || w.staleTask[key]:
+		return "/stale-after-full-wantlist"
+	case w.orphanAdd[key]:
+		return "/task-without-ledger-entry"
+	case w.truncated[key]:
+		return "/push-while-queue-at-limit"
 	}
-	if w.truncated[vc36PC{p, u.c}] {
-		f += "/push-while-queue-at-limit"
-	}
-	if w.staleFull[vc36PC{p, u.c}] {
-		f += "/stale-after-full-wantlist"
-	}
-	return f
+	return ""
 }
 
 // ---------------------------------------------------------------- sequential model
@@ -955,6 +962,13 @@ func (w *vc36World) seqMsg(p peer.ID, full bool, es []vc36Entry) {
 		for c := range pre {
 			if _, ok := wants[c]; !ok {
 				w.staleFull[vc36PC{p, c}] = true
+			}
+		}
+		if topics := w.e.peerRequestQueue.PeerTopics(p); topics != nil {
+			for _, t := range append(topics.Pending, topics.Active...) {
+				if _, ok := wants[t.(cid.Cid)]; !ok {
+					w.staleTask[vc36PC{p, t.(cid.Cid)}] = true
+				}
 			}
 		}
 	}
@@ -1133,6 +1147,19 @@ func (w *vc36World) seqAdd(u *vc36Cid) {
 			}
 		}
 	}
+	for _, p := range w.peers {
+		led := w.engineLedger(p)
+		if topics := w.e.peerRequestQueue.PeerTopics(p); topics != nil {
+			for _, t := range topics.Pending {
+				c := t.(cid.Cid)
+				if v := w.byCid[c]; v != nil && v.mhKey == u.mhKey {
+					if _, in := led[c]; !in {
+						w.orphanAdd[vc36PC{p, c}] = true
+					}
+				}
+			}
+		}
+	}
 	w.addBlock(u)
 	w.checkLedgers("after add", "")
 	w.checkTasks("after add")
@@ -1148,6 +1175,9 @@ func (w *vc36World) seqQuiesce(where string) {
 	}
 	w.checkLedgers("at quiescence", "")
 	w.checkAnswered()
+	// no task survives a quiescent point: task-related trigger marks end here
+	clear(w.staleTask)
+	clear(w.orphanAdd)
 }
 
 func (w *vc36World) checkAnswered() {
